@@ -197,6 +197,7 @@ type noiseFn struct {
 	closureDepth int
 	closureRets  []*noiseState
 	closures     map[types.Object]*ast.FuncLit
+	closureAlts  map[types.Object][]*ast.FuncLit // a local assigned several literals (one per configuration)
 }
 
 // polyish reports whether t (through pointers) is a polynomial-like type worth tracking.
@@ -362,7 +363,23 @@ func (nf *noiseFn) transferCall(call *ast.CallExpr, st *noiseState) {
 		// a closure of the function (`sample := func(pol ringqp.Poly) { … }` … `sample(h0)`): its body is interpreted at
 		// the call with the parameters standing for the arguments
 		if id, plain := unparen(call.Fun).(*ast.Ident); plain {
-			if lit := nf.closureOf(id); lit != nil && nf.closureDepth < 2 {
+			if lit0 := nf.closureOf(id); lit0 != nil && nf.closureDepth < 2 {
+				alts := nf.closureAlts[nf.info.Uses[id]]
+				if len(alts) == 0 {
+					alts = []*ast.FuncLit{lit0}
+				}
+				var joined *noiseState
+				for _, lit := range alts {
+					branch := st.clone()
+					nf.runClosure(lit, call, branch)
+					joined = joinNoise(joined, branch)
+				}
+				if joined != nil {
+					*st = *joined
+				}
+				return
+			}
+			if lit := (*ast.FuncLit)(nil); lit != nil {
 				saved := map[types.Object]ast.Expr{}
 				i := 0
 				for _, fl := range lit.Type.Params.List {
@@ -508,6 +525,49 @@ func (nf *noiseFn) transferCall(call *ast.CallExpr, st *noiseState) {
 	}
 }
 
+// runClosure interprets the body of a closure at one of its call sites, on st.
+func (nf *noiseFn) runClosure(lit *ast.FuncLit, call *ast.CallExpr, st *noiseState) {
+	saved := map[types.Object]ast.Expr{}
+	i := 0
+	for _, fl := range lit.Type.Params.List {
+		for _, nm := range fl.Names {
+			if o := nf.info.Defs[nm]; o != nil && i < len(call.Args) {
+				if old, had := nf.bind[o]; had {
+					saved[o] = old
+				}
+				if nf.bind == nil {
+					nf.bind = map[types.Object]ast.Expr{}
+				}
+				nf.bind[o] = call.Args[i]
+			}
+			i++
+		}
+	}
+	nf.closureDepth++
+	savedRets := nf.closureRets
+	nf.closureRets = nil
+	r := nf.exec(lit.Body.List, st.clone(), nil)
+	for _, rs := range nf.closureRets {
+		r = joinNoise(r, rs)
+	}
+	nf.closureRets = savedRets
+	if r != nil {
+		*st = *r
+	}
+	nf.closureDepth--
+	for _, fl := range lit.Type.Params.List {
+		for _, nm := range fl.Names {
+			if o := nf.info.Defs[nm]; o != nil {
+				if old, had := saved[o]; had {
+					nf.bind[o] = old
+				} else {
+					delete(nf.bind, o)
+				}
+			}
+		}
+	}
+}
+
 // closureOf returns the function literal a local is bound to, when the local is defined once and never assigned again
 // (a return inside the literal ends the interpretation of the closure at its call site).
 func (nf *noiseFn) closureOf(id *ast.Ident) *ast.FuncLit {
@@ -540,6 +600,10 @@ func (nf *noiseFn) closureOf(id *ast.Ident) *ast.FuncLit {
 					if len(v.Rhs) == len(v.Lhs) {
 						if lit, ok := unparen(v.Rhs[i]).(*ast.FuncLit); ok {
 							nf.closures[lo] = lit
+							if nf.closureAlts == nil {
+								nf.closureAlts = map[types.Object][]*ast.FuncLit{}
+							}
+							nf.closureAlts[lo] = append(nf.closureAlts[lo], lit)
 						}
 					}
 				}
@@ -556,9 +620,10 @@ func (nf *noiseFn) closureOf(id *ast.Ident) *ast.FuncLit {
 			return true
 		})
 		for lo := range nf.closures {
-			plain := assigned[lo] == 1
-			if !plain {
+			// every assignment of the local is a literal: the alternatives are all known
+			if assigned[lo] != len(nf.closureAlts[lo]) {
 				delete(nf.closures, lo)
+				delete(nf.closureAlts, lo)
 			}
 		}
 	}
